@@ -333,10 +333,10 @@ class InterruptPlan:
         self.rec.fired('sigint')
         self.rec.fired(f'sigint#{n}')
         if sim is None:
-            self.rec.ev('sigint', n, 'running')
+            self.rec.ev('sigint', n, 'running', self.rec.main_lines)
             raise KeyboardInterrupt()
         m = sim.main
-        self.rec.ev('sigint', n, m.blocked_in or 'running')
+        self.rec.ev('sigint', n, m.blocked_in or 'running', self.rec.main_lines)
         sim.trace.append(('sigint', n, m.blocked_in or 'running'))
         self.rec.fired('sigint-while-' + (m.blocked_in or 'running'))
         for w in sim.entities:
@@ -577,6 +577,8 @@ def execute(sc: dict, ch: Choices, storage_dir: Optional[str]) -> Outcome:
         raise ValueError(backend)
 
     saved_logger = quiet_logger(rec)
+    import multiprocessing as _mp
+    _mp.current_process().name = 'MainProcess'    # a name leaked by an earlier run must not carry over
     tick_patch = None
     if sim is None and not sc.get('real_clock'):
         # S0/S1: result_meta timestamps come from a deterministic ticking clock
